@@ -31,6 +31,7 @@ type CallRec struct {
 	Args   []Value
 	Names  []string
 	Cond   *Term
+	Ret    Value
 }
 
 type Frame struct {
@@ -46,6 +47,7 @@ type Frame struct {
 	Old      *Snapshot          // state at entry (for contracts when verified top-level)
 	Spec     *FuncSpec
 	Params   map[string]Value
+	Lets     map[string]Value
 	RetVal   Value
 	Depth    int
 }
@@ -369,7 +371,10 @@ func (c *Ctx) symbolic(st *State, t types.Type, name string) Value {
 
 func (c *Ctx) symbolicSlice(st *State, elem types.Type, name string) SliceV {
 	ref := Var(c.freshName(name+".ref"), IntSort)
-	off := Var(c.freshName(name+".off"), c.IntSort())
+	// input slices are modelled as starting at the beginning of their array: the code never observes the offset,
+	// and two distinct input slices are assumed not to overlap partially (recorded assumption)
+	off := c.idx(0)
+	c.Assumed["input slices start at offset 0 of their backing array; distinct input slices do not partially overlap"] = true
 	ln := Var(c.freshName(name+".len"), c.IntSort())
 	cp := Var(c.freshName(name+".cap"), c.IntSort())
 	sv := SliceV{Elem: elem, Heap: true, Ref: ref, Off: off, Len: ln, Cap: cp}
@@ -643,6 +648,11 @@ func (c *Ctx) ifaceIdent(st *State, v Value) *Term {
 	}
 	if i.Sym != nil {
 		return i.Sym
+	}
+	if pv, ok := i.Val.(PtrV); ok {
+		// an interface holding a pointer is identified by the pointer (the dynamic type is not stored)
+		c.Assumed["interface values stored in symbolic slices are identified by their pointer payload (dynamic type not tracked)"] = true
+		return c.ptrIdent(st, pv)
 	}
 	unsupported("storing concrete interface value into symbolic heap")
 	return nil
